@@ -326,6 +326,23 @@ class ConsumerMdib(mdibbase.MdibBase):
         # it is possible to receive multiple notifications with the same mdib version => compare ">="
         return new_mdib_version >= self.mdib_version
 
+    def _can_accept_report(self, mdib_version_group: MdibVersionGroupReader, log_prefix: str) -> bool:
+        """Check sequence id, instance id and mdib version of a report. Call this only with mdib_lock acquired.
+
+        The pre-check of a report runs before mdib_lock is acquired: a reload_all can have replaced the whole mdib
+        (new sequence id / instance id) while the report was waiting for the lock, and buffered reports can stem from
+        another instance of the provider. Such a report must not be applied.
+        """
+        if mdib_version_group.sequence_id != self.sequence_id or mdib_version_group.instance_id != self.instance_id:
+            self._logger.warning(  # noqa: PLE1205
+                '{}: report with other sequence id / instance id ({}, {}) ignored',
+                log_prefix,
+                mdib_version_group.sequence_id,
+                mdib_version_group.instance_id,
+            )
+            return False
+        return self._can_accept_mdib_version(mdib_version_group.mdib_version, log_prefix)
+
     def _check_sequence_or_instance_id_changed(self, mdib_version_group: mdibbase.MdibVersionGroup):
         """Check if sequence id and instance id are still the same.
 
@@ -478,7 +495,7 @@ class ConsumerMdib(mdibbase.MdibBase):
         """
         states_by_handle = {}
         try:
-            if self._can_accept_mdib_version(mdib_version_group.mdib_version, 'metric states'):
+            if self._can_accept_report(mdib_version_group, 'metric states'):
                 self._update_from_mdib_version_group(mdib_version_group)
                 states_by_handle = self._update_from_states_report('metric states', report)
         finally:
@@ -509,7 +526,7 @@ class ConsumerMdib(mdibbase.MdibBase):
         """
         states_by_handle = {}
         try:
-            if self._can_accept_mdib_version(mdib_version_group.mdib_version, 'alert states'):
+            if self._can_accept_report(mdib_version_group, 'alert states'):
                 self._update_from_mdib_version_group(mdib_version_group)
                 states_by_handle = self._update_from_states_report('alert states', report)
         finally:
@@ -540,7 +557,7 @@ class ConsumerMdib(mdibbase.MdibBase):
         """
         states_by_handle = {}
         try:
-            if self._can_accept_mdib_version(mdib_version_group.mdib_version, 'operational states'):
+            if self._can_accept_report(mdib_version_group, 'operational states'):
                 self._update_from_mdib_version_group(mdib_version_group)
                 states_by_handle = self._update_from_states_report('operational states', report)
         finally:
@@ -571,7 +588,7 @@ class ConsumerMdib(mdibbase.MdibBase):
         """
         states_by_handle = {}
         try:
-            if self._can_accept_mdib_version(mdib_version_group.mdib_version, 'context states'):
+            if self._can_accept_report(mdib_version_group, 'context states'):
                 self._update_from_mdib_version_group(mdib_version_group)
                 states_by_handle = self._update_from_context_states_report(report)
         finally:
@@ -602,7 +619,7 @@ class ConsumerMdib(mdibbase.MdibBase):
         """
         states_by_handle = {}
         try:
-            if self._can_accept_mdib_version(mdib_version_group.mdib_version, 'component states'):
+            if self._can_accept_report(mdib_version_group, 'component states'):
                 self._update_from_mdib_version_group(mdib_version_group)
                 states_by_handle = self._update_from_states_report('component states', report)
         finally:
@@ -633,7 +650,7 @@ class ConsumerMdib(mdibbase.MdibBase):
         """
         states_by_handle = {}
         try:
-            if self._can_accept_mdib_version(mdib_version_group.mdib_version, 'waveform states'):
+            if self._can_accept_report(mdib_version_group, 'waveform states'):
                 self._update_from_mdib_version_group(mdib_version_group)
                 for state_container in state_containers:
                     old_state_container = self.states.descriptor_handle.get_one(
@@ -711,7 +728,7 @@ class ConsumerMdib(mdibbase.MdibBase):
         deleted_descriptor_by_handle = {}
         try:
             dmt = self.sdc_definitions.data_model.msg_types.DescriptionModificationType
-            if self._can_accept_mdib_version(mdib_version_group.mdib_version, 'descriptors'):
+            if self._can_accept_report(mdib_version_group, 'descriptors'):
                 self._update_from_mdib_version_group(mdib_version_group)
                 for report_part in report.ReportPart:
                     modification_type = report_part.ModificationType
